@@ -25,3 +25,20 @@ Print Assumptions C02_project_orth.
 Theorem C02_laws_inhabited : Laws K8Ops.
 Proof. exact K8Laws. Qed.
 Print Assumptions C02_laws_inhabited.
+
+(* measuring qubit sets one after the other projects exactly as one joint measurement: the lemma behind the
+   terminal-measurement fast path (one whole-system sample, columns extracted per measurement operation) *)
+Theorem C02_seq_measure_joint : forall K (O : Ops K) sh ax1 ax2 v1 v2 (psi : list K), length v1 = length ax1 ->
+  project O sh ax2 v2 (project O sh ax1 v1 psi) = project O sh (ax1 ++ ax2) (v1 ++ v2) psi.
+Proof. exact @seq_measure_joint. Qed.
+Print Assumptions C02_seq_measure_joint.
+Theorem C02_project_comm : forall K (O : Ops K) sh ax1 ax2 v1 v2 (psi : list K),
+  project O sh ax2 v2 (project O sh ax1 v1 psi) = project O sh ax1 v1 (project O sh ax2 v2 psi).
+Proof. exact @project_comm. Qed.
+Print Assumptions C02_project_comm.
+(* a measurement step of the ensemble semantics conserves the probability mass of the branch it splits *)
+Theorem C02_step_measure_mass : forall K (O : Ops K), Laws O -> forall sh key ax inv (b : branch (K:=K)),
+  length (bpsi b) = length (enum sh) ->
+  total_mass O (step O sh (MMeasure key ax inv []) b) = mass O b.
+Proof. exact @step_measure_mass. Qed.
+Print Assumptions C02_step_measure_mass.
